@@ -7,7 +7,8 @@ REALLOC = '_ZNSt6vectorISt10unique_ptrIN5phosg4JSONESt14default_deleteIS2_EESaIS
 # message builders of thrown exceptions (text never influences results): cut out of the generated C, bodies in json_cuts.h
 CUTS = [r'^_ZNSt7__cxx119to_stringEm$', r'^_ZStplIcSt11char_traitsIcESaIcEENSt7__cxx1112basic_stringIT_T0_T1_EEPKS5_OS8_$',
         r'^_ZNSt7__cxx1112basic_stringIcSt11char_traitsIcESaIcEEC2IS3_EEPKcRKS3_$', r'^_ZN5phosg13string_printfB5cxx11EPKcz$']
-UNITS = {'json': dict(wrap='wrap.cc', shim=True, new_block=96, cxxflags=['-DVERIF_UMAP_CAP=2'], cuts=CUTS)}
+UNITS = {'json': dict(wrap='wrap.cc', shim=True, new_block=96, cxxflags=['-DVERIF_UMAP_CAP=2'], cuts=CUTS, ir2c_flags=['--union-fp-bytes']),
+         'jsonpd': dict(wrap='wrap.cc', shim=True, new_block=96, cxxflags=['-DVERIF_UMAP_CAP=2'], cuts=CUTS, ir2c_flags=['--union-fp-bytes', '--ptrdiff'])}
 BOUNDS = ''
 STUBS = []
 OUTSIDE = []
@@ -37,6 +38,9 @@ def queries(tier):
                        bounds='input length == %d, all byte values' % L))
     for L in (1, 2, 3):
         for NB in (0, 1):
+            qs.append(dict(name='totalpd_len%d_nb%d' % (L, NB), unit='jsonpd', harness='h_probe.c', defs={'LEN': L, 'NB': NB}, unwind=8,
+                           unwindset=parse_unwindset(L, NB), object_bits=12, timeout=1500, mem_gb=10,
+                           desc='parse', bounds=''))
             qs.append(dict(name='total_len%d_nb%d' % (L, NB), unit='json', harness='h_probe.c', defs={'LEN': L, 'NB': NB}, unwind=8,
                            unwindset=parse_unwindset(L, NB), object_bits=12, timeout=1500, mem_gb=10,
                            desc='parse', bounds=''))
